@@ -3,6 +3,9 @@
 // metrics), the dnsutils TTL helpers and the time arithmetic of
 // getRespFromCache, and prints what they did as Judge.C05.case literals.
 //
+// A stale hit's background refresh is answered by a scripted reply and joined
+// (cache.VerifC10LazyWait, verif export of C10) before the store is looked at.
+//
 // Nothing here depends on how fast the machine is: dump times are whole
 // seconds, every case runs inside one wall-clock second that starts at least
 // 20 ms before and ends at least 400 ms after the case (checked afterwards,
@@ -141,7 +144,8 @@ type plug struct {
 	inlineServed *[]rrT   // reply found in the context (nil = none)
 	inlineCalls  int
 	// background (lazy refresh) calls
-	bg func(k string, qCtx *query_context.Context)
+	bg     func(k string, qCtx *query_context.Context)
+	bgResp *dns.Msg // reply the next background refresh gets (nil = none); the popped OPT is put back
 	// keys
 	keyOf map[string]int
 }
@@ -163,6 +167,17 @@ func (p *plug) next(ctx context.Context, qCtx *query_context.Context) error {
 	if ctx.Value(inlineKey{}) == nil {
 		if p.bg != nil {
 			p.bg(qCtx.QQuestion().Name, qCtx)
+		}
+		p.mu.Lock()
+		br := p.bgResp
+		p.bgResp = nil
+		p.mu.Unlock()
+		if br != nil {
+			qCtx.SetResponse(br)
+			if o := qCtx.UpstreamOpt(); o != nil {
+				r := qCtx.R()
+				r.Extra = append(r.Extra, o)
+			}
 		}
 		return nil
 	}
@@ -292,10 +307,10 @@ func (p *plug) dump() ([]dumpEntry, int) {
 // ---------- sequence cases ----------
 
 type opT struct {
-	kind        string // load | exec | dump | wait
+	kind        string // load | exec | execr | dump | wait
 	k           int
 	age, ml, cl int64
-	m           *msgT // load: stored message; exec: reply the plugin sees after the rest of the chain (nil = none)
+	m           *msgT // load: stored message; exec: reply the plugin sees after the rest of the chain; execr: reply the background refresh gets (nil = none)
 	natural     *msgT // exec: reply handed to the context as it is (its last OPT is taken away; m is what remains)
 	wait        int64
 }
@@ -309,6 +324,11 @@ func (o opT) coq() string {
 			return hx.App("OExec", hx.Ni(o.k), "None")
 		}
 		return hx.App("OExec", hx.Ni(o.k), hx.Some(o.m.coq()))
+	case "execr":
+		if o.m == nil {
+			return hx.App("OExecR", hx.Ni(o.k), "None")
+		}
+		return hx.App("OExecR", hx.Ni(o.k), hx.Some(o.m.coq()))
 	case "dump":
 		return "ODump"
 	}
@@ -383,7 +403,6 @@ func runSeq(sc seqCase) (obs []string, desc map[string]any, missing bool, ok boo
 	s0 := time.Now().Unix()
 	var waited int64
 	hits, stale := 0, 0
-	refreshed := map[int]bool{}
 	for _, o := range sc.ops {
 		switch o.kind {
 		case "load":
@@ -401,14 +420,20 @@ func runSeq(sc seqCase) (obs []string, desc map[string]any, missing bool, ok boo
 				panic(fmt.Sprintf("%s: load_dump status %d", sc.id, code))
 			}
 			obs = append(obs, "BNone")
-		case "exec":
-			p.key(o.k)
+		case "exec", "execr":
+			ks := p.key(o.k)
 			lz0 := p.metric("lazy_hit_total")
 			var resp *dns.Msg
-			if o.natural != nil {
-				resp = o.natural.build(o.k)
+			if o.kind == "exec" {
+				if o.natural != nil {
+					resp = o.natural.build(o.k)
+				} else if o.m != nil {
+					resp = o.m.build(o.k)
+				}
 			} else if o.m != nil {
-				resp = o.m.build(o.k)
+				p.mu.Lock()
+				p.bgResp = o.m.build(o.k)
+				p.mu.Unlock()
 			}
 			served, err := p.exec(o.k, resp, o.natural == nil)
 			if err != nil {
@@ -420,30 +445,23 @@ func runSeq(sc seqCase) (obs []string, desc map[string]any, missing bool, ok boo
 			}
 			if lz == 1 {
 				stale++
-				// a refresh has been requested; see it start. Only a hit that follows an earlier
-				// refresh of the same question may instead have joined that one while it finishes.
-				limit := patience(5 * time.Second)
-				if refreshed[o.k] {
-					limit = 1500 * time.Millisecond
-				}
+				// Exec has requested a refresh (DoChan is issued inside Exec). Join it: when the
+				// wait returns the refresh has run and stored (or not stored) its reply.
+				p.c.VerifC10LazyWait(ks)
 				select {
 				case <-bgSig:
 					<-bgDone
-					for i := 0; i < 20; i++ {
-						runtime.Gosched()
+				default:
+					// no refresh ran for this stale hit
+					for len(obs) < len(sc.ops) {
+						obs = append(obs, "BNone")
 					}
-					time.Sleep(300 * time.Microsecond)
-				case <-time.After(limit):
-					if !refreshed[o.k] {
-						refreshBroken.Store(true)
-						for len(obs) < len(sc.ops) {
-							obs = append(obs, "BNone")
-						}
-						return obs, map[string]any{"kind": "seq", "note": sc.note, "refresh_missing": true}, true, true
-					}
+					return obs, map[string]any{"kind": "seq", "note": sc.note, "refresh_missing": true}, true, true
 				}
-				refreshed[o.k] = true
 			}
+			p.mu.Lock()
+			p.bgResp = nil
+			p.mu.Unlock()
 			if served != nil {
 				hits++
 				obs = append(obs, hx.App("BExec", hx.Some(rrsCoq(*served)), hx.Bool(lz == 1)))
@@ -876,6 +894,75 @@ func genStore(r *hx.RNG, id string) seqCase {
 	return seqCase{id: id, lazy: lazy, note: "store", ops: []opT{o, {kind: "dump"}, {kind: "exec", k: 0}}}
 }
 
+// unstorable makes a reply the property says must never be stored.
+func unstorable(r *hx.RNG) msgT {
+	m := genMsg(r, false)
+	switch r.Intn(4) {
+	case 0:
+		m.tc = true
+	case 1: // NOERROR whose smallest TTL is zero
+		m.rcode, m.tc = 0, false
+		m.rrs = append([]rrT{{0, false, 0}}, m.rrs...)
+	case 2:
+		m.tc = false
+		m.rcode = hx.Pick(r, []int{1, 4, 5, 6, 7, 8, 9, 10, 11, 15, 16, 23, 4095})
+	default: // NOERROR without any record but an OPT
+		m = msgT{0, false, nil}
+		if r.Bool() {
+			m.rrs = []rrT{{2, true, 32768}}
+		}
+	}
+	return m
+}
+
+// genRefresh: a stale (or, as a control, fresh / dead) entry is hit and the background
+// refresh is answered; then the store is dumped and the question asked again.
+func genRefresh(r *hx.RNG, id string) seqCase {
+	lazy := hx.Pick(r, []int{5, 60, 60, 3600, 3600, 86400})
+	if r.Chance(1, 10) {
+		lazy = 0
+	}
+	old := genMsg(r, true)
+	ml := int64(r.Range(1, 20))
+	cl := ml
+	if lazy > 0 {
+		cl = int64(lazy)
+	}
+	var age int64
+	switch r.Intn(8) {
+	case 0:
+		age = ml - int64(r.Range(1, 2)) // still fresh: no refresh
+	case 1:
+		age = cl + int64(r.Intn(2)) // dead
+	default:
+		age = ml + int64(r.Intn(3)) // stale when lazy
+	}
+	if age < 0 {
+		age = 0
+	}
+	var reply *msgT
+	switch r.Intn(8) {
+	case 0:
+	case 1, 2, 3, 4:
+		m := unstorable(r)
+		reply = &m
+	default:
+		m := genMsg(r, false)
+		reply = &m
+	}
+	sc := seqCase{id: id, lazy: lazy, note: "refresh", ops: []opT{
+		{kind: "load", k: 0, age: age, ml: ml, cl: cl, m: &old},
+		{kind: "execr", k: 0, m: reply},
+		{kind: "dump"},
+		{kind: "exec", k: 0},
+	}}
+	if r.Chance(1, 3) {
+		m2 := genMsg(r, false)
+		sc.ops = append(sc.ops, opT{kind: "execr", k: 0, m: &m2}, opT{kind: "dump"}, opT{kind: "exec", k: 0})
+	}
+	return sc
+}
+
 func genMixed(r *hx.RNG, id string) seqCase {
 	lazy := genLazy(r)
 	n := r.Range(3, 7)
@@ -899,6 +986,12 @@ func genMixed(r *hx.RNG, id string) seqCase {
 			sc.ops = append(sc.ops, opT{kind: "exec", k: k, m: &m})
 		case 3:
 			sc.ops = append(sc.ops, opT{kind: "dump"})
+		case 4:
+			m := genMsg(r, false)
+			if r.Bool() {
+				m = unstorable(r)
+			}
+			sc.ops = append(sc.ops, opT{kind: "execr", k: k, m: &m})
 		default:
 			sc.ops = append(sc.ops, opT{kind: "exec", k: k})
 		}
@@ -1039,6 +1132,46 @@ func catalogue() []seqCase {
 		opT{kind: "dump"}, opT{kind: "exec", k: 0})
 	add("mixed", 60, opT{kind: "load", k: 0, age: 13, ml: 10, cl: 60, m: &plain}, opT{kind: "exec", k: 0}, opT{kind: "exec", k: 0},
 		opT{kind: "dump"}, opT{kind: "exec", k: 0})
+	// the refresh started by a stale hit is answered by replies that must not be stored
+	// (the stale entry stays, nothing new is served) and by replies that may
+	refresh := func(lazy int, age, ml, cl int64, reply *msgT) {
+		add("refresh", lazy, opT{kind: "load", k: 0, age: age, ml: ml, cl: cl, m: &plain}, opT{kind: "execr", k: 0, m: reply},
+			opT{kind: "dump"}, opT{kind: "exec", k: 0}, opT{kind: "exec", k: 0})
+	}
+	for _, m := range []msgT{
+		{0, true, []rrT{rr(0, 100)}},                        // truncated answer
+		{0, true, []rrT{rr(0, 100), rr(0, 100), rr(1, 50)}}, // truncated, partial record set
+		{3, true, []rrT{rr(1, 100)}},                        // truncated NXDOMAIN
+		{2, true, nil},                                      // truncated SERVFAIL
+		{0, true, []rrT{rr(0, 0)}},                          // truncated and zero TTL
+		{0, false, []rrT{rr(0, 0), rr(1, 50)}},              // zero TTL
+		{0, false, []rrT{rr(0, 100), rr(2, 0)}},             // zero TTL in the additional section
+		{0, false, []rrT{rr(1, 0)}},                         // empty answer, zero TTL
+		{0, false, nil},                                     // no record
+		{0, false, []rrT{opt(2, 32768)}},                    // only an OPT
+		{1, false, []rrT{rr(0, 100)}}, {4, false, []rrT{rr(0, 100)}}, {5, false, []rrT{rr(1, 100)}},
+		{9, false, []rrT{rr(0, 100)}}, {15, false, []rrT{rr(0, 100)}}, {16, false, []rrT{rr(0, 100)}}, {4095, false, []rrT{rr(0, 100)}},
+		// may be stored: lifetimes by rcode
+		{0, false, []rrT{rr(0, 100), rr(1, 50), opt(2, 32768)}},
+		{0, false, []rrT{rr(0, 1)}},
+		{0, false, []rrT{rr(1, 1000)}}, {0, false, []rrT{rr(1, 299)}},
+		{3, false, []rrT{rr(1, 3600)}}, {3, false, []rrT{rr(1, 0)}},
+		{2, false, nil}, {2, false, []rrT{rr(0, 0)}},
+	} {
+		mm := m
+		refresh(60, 20, 10, 60, &mm)
+	}
+	refresh(60, 20, 10, 60, nil) // the refresh gets no reply
+	tcReply := msgT{0, true, []rrT{rr(0, 100)}}
+	okReply := msgT{0, false, []rrT{rr(0, 100)}}
+	refresh(60, 5, 10, 60, &okReply)        // fresh hit: no refresh, reply unused
+	refresh(60, 60, 10, 60, &okReply)       // dead entry: miss, no refresh
+	refresh(0, 20, 10, 60, &okReply)        // lazy off: miss, no refresh
+	refresh(3600, 10, 10, 3600, &tcReply)   // first stale second
+	refresh(3600, 3599, 10, 3600, &tcReply) // last second of the entry
+	// a refused refresh reply does not stop the next refresh from updating the entry
+	add("refresh", 60, opT{kind: "load", k: 0, age: 20, ml: 10, cl: 60, m: &plain}, opT{kind: "execr", k: 0, m: &tcReply}, opT{kind: "exec", k: 0},
+		opT{kind: "execr", k: 0, m: &okReply}, opT{kind: "dump"}, opT{kind: "exec", k: 0}, opT{kind: "execr", k: 0, m: &tcReply}, opT{kind: "dump"})
 	// expiry while in the map
 	one := msgT{0, false, []rrT{rr(0, 1), rr(1, 9)}}
 	add("wait", 0, opT{kind: "exec", k: 0, m: &one}, opT{kind: "exec", k: 0}, opT{kind: "wait", wait: 1}, opT{kind: "exec", k: 0}, opT{kind: "dump"})
@@ -1183,12 +1316,15 @@ func main() {
 		var id string
 		var sc seqCase
 		switch {
-		case i%10 < 5:
+		case i%10 < 4:
 			id = fmt.Sprintf("hit-%d-%d", o.Seed, i)
 			sc = genHit(hx.NewRNG(o.Seed, id), id)
-		case i%10 < 8:
+		case i%10 < 6:
 			id = fmt.Sprintf("store-%d-%d", o.Seed, i)
 			sc = genStore(hx.NewRNG(o.Seed, id), id)
+		case i%10 < 8:
+			id = fmt.Sprintf("refresh-%d-%d", o.Seed, i)
+			sc = genRefresh(hx.NewRNG(o.Seed, id), id)
 		default:
 			id = fmt.Sprintf("mixed-%d-%d", o.Seed, i)
 			sc = genMixed(hx.NewRNG(o.Seed, id), id)
